@@ -140,8 +140,10 @@ Definition group_inner (l : list item) : list seg :=
   if has_col l then items_segs false (fst (split_trail l)) ++ raws_only (snd (split_trail l)) else raws_only l.
 Definition group_segs (l : list item) : list seg :=
   M [o "table"; o "tr"; o "td"] :: P [o "div"] :: group_inner l ++ [P [c "div"]; M [c "td"; c "tr"; c "table"]].
-(* columns and groups side by side: the columns share one Outlook table row as before; every group brings its own table, which -
-   when a column's cell is open - simply sits inside that cell *)
+(* columns and groups side by side. The section opens ONE shared Outlook table row when it holds two or more columns or any mj-raw:
+   the columns then share that row as before and every group brings its own table, which - when a column's cell is open - simply sits
+   inside that cell; with no column at all the shared row is opened and closed around the children. Otherwise (at most one column, no
+   mj-raw) nothing is shared: the single column's table is closed right behind it, before the groups that follow. *)
 Fixpoint mitems_segs (opened : bool) (l : list mitem) : list seg :=
   match l with
   | [] => if opened then [M [c "td"; c "tr"; c "table"]] else []
@@ -149,12 +151,28 @@ Fixpoint mitems_segs (opened : bool) (l : list mitem) : list seg :=
   | MC cl :: r => (if opened then M [c "td"; o "td"] else M [o "table"; o "tr"; o "td"]) :: col_segs cl ++ mitems_segs true r
   | MG g :: r => group_segs g ++ mitems_segs opened r
   end.
+Definition is_mcol (i : mitem) : bool := match i with MC _ => true | _ => false end.
+Definition is_mraw (i : mitem) : bool := match i with MR _ => true | _ => false end.
+Definition mitem_alone (i : mitem) : list seg :=
+  match i with
+  | MC cl => M [o "table"; o "tr"; o "td"] :: col_segs cl ++ [M [c "td"; c "tr"; c "table"]]
+  | MR ts => [raw_seg ts]
+  | MG g => group_segs g
+  end.
+Definition mixed_segs (l : list mitem) : list seg :=
+  match l with
+  | [] => cols_segs []
+  | _ => if Nat.ltb 1 (length (filter is_mcol l)) || existsb is_mraw l
+         then if existsb is_mcol l then mitems_segs false l
+              else M [o "table"; o "tr"] :: flat_map mitem_alone l ++ [M [c "tr"; c "table"]]
+         else flat_map mitem_alone l
+  end.
 Definition children_segs (s : section) : list seg :=
   match s with
   | Cols l => cols_segs l
   | Groups [] => cols_segs []
   | Groups gs => flat_map group_segs gs
-  | Mixed l => mitems_segs false l
+  | Mixed l => mixed_segs l
   end.
 Definition sec_segs (s : section) : list seg :=
   P [o "div"; o "table"; o "tbody"; o "tr"; o "td"] :: children_segs s ++ [P [c "td"; c "tr"; c "tbody"; c "table"; c "div"]].
@@ -345,9 +363,23 @@ Proof.
   - now rewrite raw_seg_plain, IH.
   - now rewrite forallb_app, group_plain, IH.
 Qed.
+Lemma mitem_alone_plain i : forallb seg_plain (mitem_alone i) = true.
+Proof.
+  destruct i as [cl|ts|g]; cbn [mitem_alone forallb].
+  - now rewrite forallb_app, col_plain.
+  - now rewrite raw_seg_plain.
+  - apply group_plain.
+Qed.
+Lemma mixed_plain l : forallb seg_plain (mixed_segs l) = true.
+Proof.
+  unfold mixed_segs. destruct l as [|i r]; [apply cols_plain|].
+  destruct (_ || _); [destruct (existsb is_mcol (i :: r)); [apply mitems_plain|]|].
+  - cbn [forallb]. rewrite forallb_app, (forallb_flat_map _ _ _ mitem_alone_plain). reflexivity.
+  - apply forallb_flat_map. apply mitem_alone_plain.
+Qed.
 Lemma children_plain s : forallb seg_plain (children_segs s) = true.
 Proof.
-  destruct s as [cs|gs|ms]; cbn [children_segs]; [apply cols_plain| |apply mitems_plain]. destruct gs as [|g gs]; [reflexivity|].
+  destruct s as [cs|gs|ms]; cbn [children_segs]; [apply cols_plain| |apply mixed_plain]. destruct gs as [|g gs]; [reflexivity|].
   apply forallb_flat_map. apply group_plain.
 Qed.
 Lemma sec_plain s : forallb seg_plain (sec_segs s) = true.
@@ -669,11 +701,34 @@ Proof.
     + rewrite events_cons, raw_run. apply IH.
     + rewrite events_app, run_app, (group_wb Mso g). apply IH.
 Qed.
+Lemma mitem_alone_wb v i : wb (events v (mitem_alone i)).
+Proof.
+  destruct i as [cl|ts|g]; cbn [mitem_alone]; [|apply raw_wb|apply group_wb].
+  rewrite events_cons, events_app. destruct v.
+  - change (seg_events Std (M [o "table"; o "tr"; o "td"])) with (@nil ev). change (events Std [M [c "td"; c "tr"; c "table"]]) with (@nil ev).
+    cbn [app]. rewrite app_nil_r. apply col_wb.
+  - change (seg_events Mso (M [o "table"; o "tr"; o "td"])) with [eo "table"; eo "tr"; eo "td"].
+    change (events Mso [M [c "td"; c "tr"; c "table"]]) with [ec "td"; ec "tr"; ec "table"]. cbn [app]. apply wrap3. apply col_wb.
+Qed.
+Lemma mixed_wb v l : wb (events v (mixed_segs l)).
+Proof.
+  unfold mixed_segs. destruct l as [|i r]; [apply cols_wb|].
+  destruct (_ || _); [destruct (existsb is_mcol (i :: r))|].
+  - destruct v; [apply mitems_std|]. intros st. apply (mitems_mso (i :: r) false st).
+  - rewrite events_cons, events_app, events_flat_map.
+    assert (I : wb (flat_map (fun x => events v (mitem_alone x)) (i :: r))) by (apply wb_concat_map; intros x; apply mitem_alone_wb).
+    destruct v.
+    + change (seg_events Std (M [o "table"; o "tr"])) with (@nil ev). change (events Std [M [c "tr"; c "table"]]) with (@nil ev).
+      cbn [app]. rewrite app_nil_r. exact I.
+    + change (seg_events Mso (M [o "table"; o "tr"])) with [eo "table"; eo "tr"]. change (events Mso [M [c "tr"; c "table"]]) with [ec "tr"; ec "table"].
+      cbn [app]. apply wrap2. exact I.
+  - rewrite events_flat_map. apply wb_concat_map. intros x. apply mitem_alone_wb.
+Qed.
 Lemma children_wb v s : wb (events v (children_segs s)).
 Proof.
   destruct s as [cs|gs|ms]; cbn [children_segs]; [apply cols_wb| |].
   - destruct gs as [|g gs]; [apply cols_wb|]. rewrite events_flat_map. apply wb_concat_map. intros x. apply group_wb.
-  - destruct v; [apply mitems_std|]. intros st. apply (mitems_mso ms false st).
+  - apply mixed_wb.
 Qed.
 
 Lemma sec_events v s : events v (sec_segs s) =
@@ -1045,9 +1100,26 @@ Proof.
   - rewrite raw_txt. f_equal. apply IH.
   - rewrite events_app, texts_app, group_txt. f_equal. apply IH.
 Qed.
+Lemma mitem_alone_txt v i : texts (events v (mitem_alone i)) = mitem_texts v i.
+Proof.
+  destruct i as [cl|ts|g]; cbn [mitem_alone mitem_texts].
+  - rewrite silent_txt by sil. rewrite events_app, texts_app, col_txt.
+    replace (texts (events v [M [c "td"; c "tr"; c "table"]])) with (@nil bytes) by (destruct v; reflexivity). now rewrite app_nil_r.
+  - rewrite raw_txt. cbn [events flat_map texts]. now rewrite app_nil_r.
+  - apply group_txt.
+Qed.
+Lemma mixed_txt v l : texts (events v (mixed_segs l)) = flat_map (mitem_texts v) l.
+Proof.
+  unfold mixed_segs. destruct l as [|i r]; [destruct v; reflexivity|].
+  destruct (_ || _); [destruct (existsb is_mcol (i :: r)); [apply mitems_txt|]|].
+  - rewrite silent_txt by sil. rewrite events_app, texts_app, events_flat_map, texts_flat_map.
+    replace (texts (events v [M [c "tr"; c "table"]])) with (@nil bytes) by (destruct v; reflexivity). rewrite app_nil_r.
+    apply flat_map_ext. intros x. apply mitem_alone_txt.
+  - rewrite events_flat_map, texts_flat_map. apply flat_map_ext. intros x. apply mitem_alone_txt.
+Qed.
 Lemma children_txt v s : texts (events v (children_segs s)) = sec_texts v s.
 Proof.
-  destruct s as [cs|gs|ms]; cbn [children_segs sec_texts]; [apply cols_txt| |apply mitems_txt].
+  destruct s as [cs|gs|ms]; cbn [children_segs sec_texts]; [apply cols_txt| |apply mixed_txt].
   destruct gs as [|g gs]; [destruct v; reflexivity|].
   rewrite events_flat_map, texts_flat_map. apply flat_map_ext. intros x. apply group_txt.
 Qed.
